@@ -81,6 +81,8 @@ LoadsViol(e, bound, what) == IF e.dloads > bound THEN {V("C16", what, e.h)} ELSE
 (* common tail of every action; pact = the property a wrong observation of the acted-on handle belongs to *)
 FinishP(t2, cur2, rts2, names2, v, statf, pact) ==
   LET allv == v \cup ObsViol(t2, Ev, {Ev.h, Ev.g}, pact) \cup RObsViol(rts2, Ev)
+              \* node objects in the shared cache stand for persisted (captured) nodes: none may change, whoever looks at it later
+              \cup (IF Ev.cachemut > 0 THEN {V("C02", "a node object handed to the shared node cache was modified afterwards", Ev.h)} ELSE {})
   IN /\ th' = Heights(t2, Ev)
      /\ cur' = cur2 /\ rts' = rts2 /\ names' = names2
      /\ viol' = viol \cup allv
@@ -239,14 +241,16 @@ TLoad == /\ Good("load")
             ELSE LET r == RootOf(Ev.r)
                      t2 == [hr |-> DoLoad(r), model |-> r.model, bmodel |-> r.model, oh |-> r.height]
                      o == ObsOf(Ev, Ev.g)
+                     viaCache == Ev.cached /\ cfg.cache # "none"
+                     differs == HasObs(Ev, Ev.g) /\ (o.err # "" \/ o.ents # SortedPairs(r.model) \/ o.size # r.size \/ o.height # r.height)
                      v == IF Ev.res # "ok" THEN {V("C05", "loading a root returned by MakeRoot fails", Ev.g)}
-                          ELSE (IF HasObs(Ev, Ev.g) /\ (o.err # "" \/ o.ents # SortedPairs(r.model) \/ o.size # r.size \/ o.height # r.height)
-                                THEN {V(IF Ev.cached /\ cfg.cache # "none" THEN "C02" ELSE "C05", "reloaded tree differs in entries, size or height", Ev.g)} ELSE {})
+                          ELSE (IF differs THEN {V("C05", "reloaded tree differs in entries, size or height", Ev.g)} ELSE {})
+                               \* ... and when the store still holds the version but the tree came through the shared cache, the captured version changed (C02)
+                               \cup (IF differs /\ viaCache THEN {V("C02", "a version loaded through the shared cache differs from what was persisted", Ev.g)} ELSE {})
                                \cup LoadsViol(Ev, 1, "opening a version reads more than its top node")
                      \* a tree loaded through the shared cache that differs although the store still holds the version: the
                      \* captured version changed as seen through the cache (C02); otherwise persist->load is not the identity (C05)
-                 IN IF Ev.res = "ok" THEN FinishP([th EXCEPT ![Ev.g] = t2], cur, rts, names, v, Bump(stat, "load"),
-                                                  IF Ev.cached /\ cfg.cache # "none" THEN "C02" ELSE "C05")
+                 IN IF Ev.res = "ok" THEN FinishP([th EXCEPT ![Ev.g] = t2], cur, rts, names, v, Bump(stat, "load"), "C05")
                     ELSE Finish(th, cur, rts, names, v, Bump(stat, "load"))
 
 (* a handle taken over from outside the history (race family): a persisted version given by its decoded tree and its entries *)
